@@ -114,7 +114,7 @@ func runC01(o *Out, rng *Rng, tier string, replay string) {
 
 func runC02(o *Out, rng *Rng, tier string, replay string) {
 	n := engCounts(tier)
-	o.sum.Rule = "case = engine history as for C01, compared under the C02 projection (the result code of every check-in); Go monitor recomputes 'grounded' (not mid-trip, negative balance, no kept promise whose refreshed clearance has been reached) from the record read just before each call; non-trivial = the history contains a grounded refusal and an acceptance at the start of a new trip; distinct by script hash"
+	o.sum.Rule = "case = engine history as for C01 (every third: check-ins just before / at a kept promise's clearance second for flights departing after it, and trips promised to start before a kept promise's clearance date; every sixth: a kept promise whose entry has left the book), compared under the C02 projection (the result code of every check-in); Go monitor recomputes 'grounded' (not mid-trip, negative balance, no kept promise whose refreshed clearance has been reached) from the record read just before each call; non-trivial = the history contains a grounded refusal and an acceptance at the start of a new trip; distinct by script hash"
 	wd := filepath.Join(o.dir, "dbs")
 	for c := 0; c < n; c++ {
 		r := rng.Fork()
@@ -124,6 +124,8 @@ func runC02(o *Out, rng *Rng, tier string, replay string) {
 			burstProj = "C02"
 			s = genC08Burst(r, wd) // a kept promise whose entry leaves the book before it is used
 			burstProj = "C08"
+		} else if c%6 == 2 || c%6 == 4 {
+			s = genC02Kept(r, wd, "C02") // check-ins around a kept promise's clearance second; trips stacked on a kept promise
 		} else {
 			s = genEngine(r, wd, "C02", cfg)
 		}
